@@ -131,6 +131,24 @@ func c12CheckRef(m vfshared.Method, req, resp, refReq, refResp proto.Message, re
 	if err != nil {
 		return fmt.Errorf("interceptor returned error: %v", err)
 	}
+	// a connection that also has a search-attribute mapping installs a second translator; for methods that translator
+	// declines (WorkflowService) its presence - before or after the namespace translator - must change nothing
+	sat := NewSearchAttributeTranslator(vfNoopLogger(), map[string]map[string]string{"ns-id": {"VfUnusedKey": "VfOtherKey"}}, map[string]map[string]string{"ns-id": {"VfOtherKey": "VfUnusedKey"}})
+	if !sat.MatchMethod(m.FullMethod) {
+		nst := NewNamespaceNameTranslator(vfNoopLogger(), reqMap, respMap)
+		for _, order := range [][]Translator{{sat, nst}, {nst, sat}} {
+			r2, s2, err2 := vfRunInterceptor(NewTranslationInterceptor(vfNoopLogger(), order), context.Background(), m, proto.Clone(req), proto.Clone(resp))
+			if err2 != nil {
+				return fmt.Errorf("interceptor with an additional search-attribute translator returned error: %v", err2)
+			}
+			if !(m.ClientStream || m.ServerStream) && !vfshared.EqualModuloBlobEncoding(r2, gotReq) {
+				return fmt.Errorf("request of %s is translated differently when a search-attribute translator (which declines the method) is installed next to the namespace translator: %s", m.Name, vfshared.DiffSummary(r2, gotReq))
+			}
+			if !vfshared.EqualModuloBlobEncoding(s2, gotResp) {
+				return fmt.Errorf("response of %s is translated differently when a search-attribute translator (which declines the method) is installed next to the namespace translator: %s", m.Name, vfshared.DiffSummary(s2, gotResp))
+			}
+		}
+	}
 	if !(m.ClientStream || m.ServerStream) { // stream requests are translated before they are received (unobservable: no namespace in them)
 		if !vfshared.EqualModuloBlobEncoding(gotReq, wantReq) {
 			return fmt.Errorf("request of %s not translated as the reference: %s", m.Name, vfshared.DiffSummary(gotReq, wantReq))
